@@ -1210,7 +1210,9 @@ class Suspender(Interrupter):
 
     def deactivize(self, aux, **kwa):
         """ If not aux.done Then force deactivate. Used in exit action."""
-        if not aux.done:
+        # only if aux is active under this act's frame since the same original
+        # aux may be active as auxiliary of another frame that is not exiting
+        if not aux.done and (not aux.original or aux.main is self._act.frame):
             console.profuse("{0} deactivate {1}\n".format(self.name, aux.name))
             self.deactivate(aux)
 
